@@ -44,9 +44,17 @@ impl ProtoFmt for std::net::SocketAddr {
 /// `time::Duration::new` panics on the values which are out of range, so it cannot be used on
 /// untrusted input.
 fn duration_from_parts(seconds: i64, nanos: i32) -> anyhow::Result<time::Duration> {
-    time::Duration::seconds(seconds)
+    let d = time::Duration::seconds(seconds)
         .checked_add(time::Duration::nanoseconds(nanos.into()))
-        .context("duration out of range")
+        .context("duration out of range")?;
+    // `build()` represents a negative sub-second part as `seconds - 1` plus a positive
+    // `nanos`, which does not exist for `i64::MIN` seconds: such a value could be decoded
+    // but not encoded again (hashing / relaying it would overflow).
+    anyhow::ensure!(
+        d.whole_seconds() > i64::MIN || d.subsec_nanoseconds() >= 0,
+        "duration out of range"
+    );
+    Ok(d)
 }
 
 impl ProtoFmt for time::Utc {
